@@ -92,6 +92,16 @@ def run(rep, tier, seed):
             done.append(i_)
             s_ = rnd.choice(done) + randbits(rnd, rnd.randint(0, 12)) if rnd.random() < 0.8 else randbits(rnd, rnd.randint(0, 12))
             one(b, list(done), s_, rnd.choice([L, R]), 'grown-from-empty', shared=(live, ruler))
+    # packets whose bits behind the id are long runs of ones or zeros (a residue of 0xFF bytes, an all-zero payload), ids that differ in
+    # their last bit only: whatever arithmetic finds the leading bits must not round them
+    for k in range(200 if tier == 'quick' else 2000):
+        w = rnd.choice([1, 3, 7, 8, 8, 9, 16])
+        base = randbits(rnd, w - 1) if w > 1 else ''
+        ids = [base + '0', base + '1'] + ([x for x in prefix_free_ids(rnd, 2, maxlen=6) if not (base + '0').startswith(x) and not x.startswith(base)] if base else [])
+        ids = [x for j, x in enumerate(ids) if all(not x.startswith(y) and not y.startswith(x) for y in ids[:j])]
+        rnd.shuffle(ids)
+        for tail in ('1' * rnd.choice([45, 53, 60, 64, 200]), '0' * rnd.choice([53, 64, 200]), '1' * 52 + '0' + '1' * 30, '0' + '1' * 70):
+            one(b, ids, rnd.choice([base + '0', base + '1']) + tail, rnd.choice([L, R]), 'runs-behind-the-id')
     # the empty rule set (a context that is being provisioned) is a prefix-free set too: no id is a prefix of anything
     for s in strings[:64] + [randbits(rnd, 200)]:
         one(b, [], s, L if len(s) % 2 else R, 'empty-rule-set')
